@@ -41,8 +41,9 @@ BOUNDS = {
 OUTSIDE = [
     "masks whose kernel footprint leaves the frame (Convolver raises MaskException via blurring_mask_2d_from - property C10; Imaging pads instead)",
     "interior regions larger than 12 pixels other than the listed patterns; kernel axes longer than 7; more than 2 mapping-matrix columns",
-    "simulation clause: PSF total fixed to 1 (normalize_psf=False) or 2 (normalize_psf=True) with all entries otherwise free - a free total makes the "
-    "double normalisation (simulator, then Imaging) a rational identity that z3 does not decide in 90 s; image values and PSF entries outside [-8, 8] and "
+    "simulation clause: the PSF total is pinned per case to a concrete dyadic value (1, 2, 1/2; thorough also -1, -1/4) with all entries otherwise free, "
+    "for normalize_psf=False and True and for Imaging(use_normalized_psf=False).apply_mask - a free total makes the normalisations (simulator, then "
+    "Imaging) rational identities that z3 does not decide in 90 s; image values and PSF entries outside [-8, 8] and "
     "background sky below 64*ky*kx + 2^-10: SimulatorImaging draws np.random.poisson even with add_poisson_noise_to_data=False and numpy rejects negative "
     "rates (ValueError), so the expected counts are kept positive by linear preconditions",
     "Poisson / noise-map stages of the simulator (switched off), Kernel2D.rescaled_with_odd_dimensions_from, convolve_image_no_blurring_interpolation",
@@ -68,6 +69,8 @@ EXPLORER_OPTS = {"timeout_ms": 20000, "max_paths": 100000, "logic": "QF_NRA"}
 BUDGET_S = {"quick": 900, "thorough": 2300}
 
 FINDING_NEG = "matrix-nonpositive-skipped"
+FINDING_SIM = "simulated-dataset-psf-renormalised"
+FINDING_MASK = "apply-mask-drops-use-normalized-psf"
 
 
 # ---------------------------------------------------------------------------- engine glue (no edits to symx/*)
@@ -598,7 +601,7 @@ EXPOSURE = 256.0
 SIM_BOX = 8.0
 
 
-def body_simulate(inp, H, W, ky, kx, normalize):
+def body_simulate(inp, H, W, ky, kx, normalize, total=None):
     import autoarray as aa
     mask = np.array(inp["mask"], dtype=bool).reshape(H, W)
     v = np.asarray(inp["v"]).reshape(H, W)
@@ -637,19 +640,31 @@ def body_simulate(inp, H, W, ky, kx, normalize):
 
     A["residual_of_generating_image"] = hx.attempt(fit)
     E["residual_of_generating_image"] = np.zeros(len(pos))
+    if not normalize:
+        # the same data in a dataset that was told NOT to normalise its PSF: masking must keep that PSF
+        def fit_raw():
+            ds2 = aa.Imaging(data=ds.data, noise_map=ds.noise_map, psf=psf, use_normalized_psf=False, check_noise_map=False)
+            masked = ds2.apply_mask(mask=m)
+            bm = m.derive_mask.blurring_from(kernel_shape_native=(ky, kx))
+            model = masked.convolver.convolve_image(image=aa.Array2D(values=v.copy(), mask=m), blurring_image=aa.Array2D(values=v.copy(), mask=bm))
+            return masked.data.slim.array - model.slim.array
+
+        A["residual_in_unnormalized_dataset_after_apply_mask"] = hx.attempt(fit_raw)
+        E["residual_in_unnormalized_dataset_after_apply_mask"] = np.zeros(len(pos))
     return A, E
 
 
-def case_simulate(ctx, H, W, ky, kx, normalize, masks=None, pattern=None):
+def case_simulate(ctx, H, W, ky, kx, normalize, masks=None, pattern=None, total=None):
     _stop_when_enough(ctx)
     mask = _interior_mask(ctx, H, W, ky, kx) if masks is None else np.array(masks, dtype=bool)
     ctx.set_case(mask=mask.tolist())
     v, K, bg = V.real_array("v", (H, W)), V.real_array("K", (ky, kx)), V.real("bg")
     tot = z3.Sum([e.t for e in K.reshape(-1)])
-    if normalize:
-        ctx.assume(tot == 2)                      # the PSF is divided by its sum (twice: simulator and Imaging)
-    else:
-        ctx.assume(tot == 1)                      # Imaging() always normalises its PSF: hand in a unit-sum PSF
+    # the PSF total is pinned to a concrete dyadic value (all entries otherwise free): a free total turns the normalisations
+    # (simulator, Imaging) into rational identities that z3 does not decide in 90 s
+    if total is None:
+        total = 2.0 if normalize else 1.0
+    ctx.assume(tot == V.rval(total))
     # SimulatorImaging draws the Poisson realisation even when it is switched off and numpy rejects negative expected counts
     # (ValueError): keep convolved image + background positive.  Stated through LINEAR constraints (a box for the values and a
     # background above the worst case) - the bilinear form `conv(v, K)[t] + bg >= 0` for every t costs 14 s per model search.
@@ -657,8 +672,14 @@ def case_simulate(ctx, H, W, ky, kx, normalize, masks=None, pattern=None):
     ctx.assume(box)
     ctx.assume(bg.t >= V.rval(SIM_BOX * SIM_BOX * ky * kx + 2.0 ** -10))
     inputs = {"mask": mask, "v": v, "K": K, "bg": [bg]}
-    tol = {"simulated_data": None, "residual_of_generating_image": None}
-    hx.run_body(ctx, body_simulate, inputs, {"H": H, "W": W, "ky": ky, "kx": kx, "normalize": normalize}, validate_every=8, tol=tol)
+    known = {}
+    region = tot != 1          # normalize_psf=False / use_normalized_psf=False with a PSF whose entries do not sum to 1
+    if not normalize:
+        if FINDING_SIM in _known_ids():
+            known["residual_of_generating_image"] = {FINDING_SIM: region}
+        if FINDING_MASK in _known_ids():
+            known["residual_in_unnormalized_dataset_after_apply_mask"] = {FINDING_MASK: region}
+    hx.run_body(ctx, body_simulate, inputs, {"H": H, "W": W, "ky": ky, "kx": kx, "normalize": normalize, "total": total}, validate_every=8, known=known)
 
 
 BODIES = {"case_convolver": body_convolver, "case_whole_frame": body_whole_frame, "case_simulate": body_simulate}
@@ -717,17 +738,20 @@ def cases(tier):
         H, W, mk = pattern_mask("lshape", ky + 1 - ky % 2, kx + 1 - kx % 2)
         out.append(("case_whole_frame", {"H": H, "W": W, "ky": ky, "kx": kx, "masks": mk}))
     # (d) noise-free simulation fitted by its generating image
-    sims = [((3, 3), (2, 3), False, None), ((3, 5), None, False, "lshape"), ((5, 3), None, False, "hole"), ((3, 3), None, True, "lshape")]
+    # (kernel shape, interior to fork over | None, normalize_psf, listed pattern | None, pinned PSF total)
+    sims = [((3, 3), (2, 3), False, None, 1.0), ((3, 5), None, False, "lshape", 1.0), ((5, 3), None, False, "hole", 1.0), ((3, 3), None, True, "lshape", 2.0),
+            ((3, 3), (2, 3), False, None, 2.0), ((3, 5), None, False, "lshape", 0.5), ((5, 3), None, True, "lshape", 0.5)]
     if not quick:
-        sims += [((3, 3), (3, 3), False, None), ((5, 5), None, False, "two"), ((1, 3), (2, 3), False, None), ((3, 1), (3, 2), False, None),
-                 ((7, 3), None, False, "lshape"), ((3, 7), None, False, "checker"), ((3, 5), None, True, "lshape"), ((5, 3), None, True, "lshape")]
-    for (ky, kx), inter, normalize, pat in sims:
+        sims += [((3, 3), (3, 3), False, None, 1.0), ((5, 5), None, False, "two", 1.0), ((1, 3), (2, 3), False, None, 1.0), ((3, 1), (3, 2), False, None, 1.0),
+                 ((7, 3), None, False, "lshape", 1.0), ((3, 7), None, False, "checker", 1.0), ((3, 5), None, True, "lshape", 2.0), ((5, 3), None, True, "lshape", 2.0),
+                 ((3, 3), (3, 3), False, None, 0.5), ((5, 5), None, False, "two", 2.0), ((3, 3), None, False, "hole", -1.0), ((3, 5), None, True, "hole", -0.25)]
+    for (ky, kx), inter, normalize, pat, total in sims:
         if pat is None:
-            out.append(("case_simulate", {"H": inter[0] + 2 * (ky // 2), "W": inter[1] + 2 * (kx // 2), "ky": ky, "kx": kx, "normalize": normalize},
+            out.append(("case_simulate", {"H": inter[0] + 2 * (ky // 2), "W": inter[1] + 2 * (kx // 2), "ky": ky, "kx": kx, "normalize": normalize, "total": total},
                         {"split": 2 if inter[0] * inter[1] <= 6 else 4}))
         else:
             H, W, mk = pattern_mask(pat, ky, kx)
-            out.append(("case_simulate", {"H": H, "W": W, "ky": ky, "kx": kx, "normalize": normalize, "masks": mk, "pattern": pat}))
+            out.append(("case_simulate", {"H": H, "W": W, "ky": ky, "kx": kx, "normalize": normalize, "total": total, "masks": mk, "pattern": pat}))
     return out
 
 
